@@ -34,6 +34,10 @@ TABLE = {
     "c07_placer_multi_second_sink_missing.diff": ("contracts.c07b", "_place_multi_condition_decider", "rows (ref CMP ref), (ref CMP int)"),
     "c07_placer_multi_connective_dropped.diff": ("contracts.c07b", "_place_multi_condition_decider", "rows (ref CMP ref), (ref CMP int)"),
     "c07_placer_multi_inlined_as_signal.diff": ("contracts.c07b", "_place_multi_condition_decider", "rows (ref CMP ref), (ref CMP int)"),
+    "c01_merge_duplicate_producer_allowed.diff": ("contracts.c01b", "_attempt_wire_merge", "left simple, right simple"),
+    "c01_merge_mixed_types_allowed.diff": ("contracts.c01b", "_attempt_wire_merge", "left simple, right simple"),
+    "c01_merge_subtraction_merged.diff": ("contracts.c01b", "_attempt_wire_merge", "left simple, right simple"),
+    "c01_merge_reuse_keeps_old_members.diff": ("contracts.c01b", "_attempt_wire_merge", "left own, right simple"),
     "c08_mark_occupied_row_only.diff": ("contracts.c08", "mark_occupied", None),
     "c14_zero_step_via_variable.diff": ("contracts.c14", "visit_ForStmt", "variable"),
     "c14_define_shadows_in_inner_scope.diff": ("contracts.c14", "define", None),
@@ -79,6 +83,23 @@ TABLE = {
     "../seeded/C01-4/patch.diff": ("contracts.c07", "_configure_decider", "operation = <"),
     "../seeded/C12-1/patch.diff": ("contracts.c12", "_route_connection_with_relays", None),
 }
+# patches refuted by an AST obligation (pyvc.guards): patch -> guard expression
+_WIRES_FRAME = ('writes_only_through("dsl_compiler/src/layout/connection_planner.py", "wire_connections", "add_wire_connection", '
+                '{"_create_relay_chain", "_restore_preserved_connection", "_add_self_feedback_connections"})')
+TABLE.update({
+    "c08_preserved_wires_not_bridged.diff": ("guard", _WIRES_FRAME, None),
+    "c08_preserved_shares_network_zero.diff": ("contracts.c12", "_restore_preserved_connection", None),
+    "c08_preserved_routing_failure_ignored.diff": ("contracts.c12", "_restore_preserved_connection", None),
+    "c08_preserved_span_doubled.diff": ("contracts.c12", "_restore_preserved_connection", None),
+})
+GUARD_RUNNER = r'''
+import sys
+sys.path.insert(0, %r)
+from pyvc import guards
+rec = eval(sys.argv[2], vars(guards))
+print(rec.get("status"), rec.get("detail"))
+print("RESULT", 1, 1 if rec.get("status") == "violated" else 0)
+''' % str(VERIF)
 RUNNER = r'''
 import sys, importlib
 sys.path.insert(0, %r)
@@ -111,7 +132,7 @@ def main():
             if r.returncode:
                 print(f"{patch}: PATCH DOES NOT APPLY (contract drift of the self-test)"); fails += 1; continue
             env = dict(os.environ, FACTO_REPO=str(repo), PYTHONPATH=f"{VERIF}:{repo}", PYTHONHASHSEED="0")
-            args = [str(VERIF / ".venv/bin/python"), "-c", RUNNER, mod, pat] + ([note] if note else [])
+            args = [str(VERIF / ".venv/bin/python"), "-c", GUARD_RUNNER if mod == "guard" else RUNNER, mod, pat] + ([note] if note else [])
             r = subprocess.run(args, env=env, capture_output=True, text=True)
             line = [l for l in r.stdout.splitlines() if l.startswith("RESULT")]
             tot, bad = (int(x) for x in line[-1].split()[1:]) if line else (0, 0)
